@@ -44,6 +44,7 @@ func (ci codecItem) String() string {
 func c05(c *Ctx) {
 	p, R := c.Node(), c.R
 	R.Trust("go/types + go/ast + go/ssa", "encoding/binary, bytes.Reader and bytes.Buffer semantics (a Read into a buffer of the remaining length returns all remaining bytes)")
+	loopVarRule(c, p, "C05.loopvar", pkgVAA)
 	R.Assumption("value-level equality of the round trip is argued from mirror + consume-all + fixed widths, not measured")
 	c05codec(c, p, pkgVAA, "C05")
 }
